@@ -41,6 +41,8 @@ def cases(tier):
     out.append(dict(name="two_fe", kind="featurizer", sel="all", first=None, n_fit=3, n_hold=2, second_fe=True, states=False, weight=60))
     for sep in ([], ["AA"], ["BB"], ["AA", "BB"]):
         out.append(dict(name="separate_states_%s" % ("+".join(sep) or "none"), kind="states", sep=sep, weight=5))
+        # centring together with separate-state models (no caller combines them, the featurizer's interface allows it)
+        out.append(dict(name="separate_states_centred_%s" % ("+".join(sep) or "none"), kind="states", sep=sep, center=True, weight=5))
     for pi, nrep in (("nonparametric", 6), ("gaussian", 7)):
         out.append(dict(name="pipeline_%s" % pi[:2], kind="pipeline", pi=pi, nrep=nrep, weight=30))
     out.append(dict(name="bootstrap_matrices", kind="bs", weight=20))
@@ -205,7 +207,8 @@ def run_states(ctx, case):
                        "unit_category": ["expected"] * n, "f1": col(f1), "baseline_normalized_margin": col(bnm)})
     feats = ["baseline_normalized_margin", "f1"]
     fz = Featurizer(feats, {}, states_for_separate_model=case["sep"])
-    x_all = fz.prepare_data(df, center_features=False, scale_features=False, add_intercept=True)
+    centre = bool(case.get("center"))
+    x_all = fz.prepare_data(df, center_features=centre, scale_features=False, add_intercept=True)
     fit = fz.filter_to_active_features(x_all[:2])
     hold = fz.generate_holdout_data(x_all[2:])
     cols = list(fit.columns)
@@ -217,7 +220,17 @@ def run_states(ctx, case):
     nb = len([c for c in cols if c.startswith("baseline_normalized_margin")])
     obl.append(("intercept first, then all baseline margin terms",
                 cols[0] == "intercept" and all(c.startswith("baseline_normalized_margin") for c in cols[1:1 + nb])))
-    if "AA" in case["sep"]:
+    if centre:
+        # centred over ALL units: every continuous feature column has mean zero over the whole frame, and each cell is the
+        # uncentred cell (0 on the rows of a separate-model state) minus the mean of the uncentred column
+        for f, vals in (("f1", f1), ("baseline_normalized_margin", bnm)):
+            raw = [0 if ("AA" in case["sep"] and st[i] == "AA") else vals[i] for i in range(n)]
+            mean = P.csum(raw) / n
+            obl.append(("centring requested: column %s has mean zero over all units" % f, AEQ(P.csum(list(x_all[f])), 0)))
+            for i in range(n):
+                obl.append(("centring requested: %s of unit %d is its value minus the mean over all units" % (f, i),
+                            AEQ(x_all[f].iloc[i], raw[i] - mean)))
+    if "AA" in case["sep"] and not centre:
         for i in range(3):
             x = x_all.iloc[i]
             obl.append(("unit %d of a separate state: own copy carries the value, shared column is 0" % i,
